@@ -13,7 +13,6 @@ import (
 	"verif/ref"
 )
 
-
 // bufferVariant: the MarshalJSONBuffer form appends to the caller's buffer. It is called with a
 // non-empty destination whose spare capacity is dirty (alternating between "a few bytes spare", so
 // that the output has to outgrow it, and "plenty"), and has to return prefix + the bytes MarshalJSON
